@@ -14,6 +14,7 @@
 #include <tao/pegtl/contrib/abnf.hpp>
 #include <tao/pegtl/contrib/integer.hpp>
 #include <tao/pegtl/contrib/json.hpp>
+#include "json_unescape.hpp"   // src/example/pegtl: the JSON string unescaping built from the unescape helpers (C17)
 #include <tao/pegtl/contrib/uri.hpp>
 #include <dirent.h>
 #include <fstream>
@@ -182,6 +183,67 @@ static void unj( const std::vector< unsigned >& units )
    rec_end();
 }
 
+// the example's JSON string unescaping: a string literal built from tokens (kind 1 literal byte, 2 simple escape with the
+// character behind the backslash, 3 \\uXXXX unit), parsed with json::string, unescaped by example::json_unescape
+template< typename Rule >
+struct jstr_action : nothing< Rule >
+{};
+template<>
+struct jstr_action< json::string::content > : example::json_unescape
+{
+   template< typename In >
+   static void success( const In& /*unused*/, std::string& s, std::string& out )
+   {
+      out = std::move( s );
+   }
+};
+static void jstr( const std::vector< std::pair< int, unsigned > >& toks )
+{
+   std::string text = "\"";
+   for( const auto& t : toks ) {
+      if( t.first == 1 ) {
+         text += char( t.second );
+      }
+      else if( t.first == 2 ) {
+         text += '\\';
+         text += char( t.second );
+      }
+      else {
+         char buf[ 8 ];
+         std::snprintf( buf, sizeof( buf ), "\\u%04x", t.second );
+         text += buf;
+      }
+   }
+   text += "\"";
+   Blk b( text );
+   memory_input<> in( b.p, b.p + b.n, "src" );
+   std::string out;
+   int ok = 0;
+   try {
+      ok = parse< seq< json::string, eof >, jstr_action >( in, out ) ? 1 : 0;
+   }
+   catch( const parse_error& ) {
+      ok = 2;
+   }
+   rec_begin( "jstr" );
+   W.s( ",\"tk\":[" );
+   for( std::size_t i = 0; i < toks.size(); ++i ) {
+      if( i )
+         W.s( "," );
+      W.i( toks[ i ].first );
+   }
+   W.s( "],\"tv\":[" );
+   for( std::size_t i = 0; i < toks.size(); ++i ) {
+      if( i )
+         W.s( "," );
+      W.i( toks[ i ].second );
+   }
+   W.s( "]" );
+   W.kv( "ok", ok );
+   put_bytes( "out", out );
+   rec_end();
+}
+
 static void unu( const std::string& digits )
 {
    const std::string text = "u" + digits;
@@ -294,6 +356,31 @@ static void section_unescape( bool thorough, unsigned seed )
             unj( { a, b2, c } );
          }
       }
+   }
+   // the example's JSON string unescaping: all token sequences up to length 3 (quick: 2 plus a seeded sample of length 3)
+   {
+      std::vector< std::pair< int, unsigned > > alpha = { { 1, 'a' }, { 1, ' ' }, { 1, 0x7f } };
+      for( const char c : { '"', '\\', '/', 'b', 'f', 'n', 'r', 't' } ) {
+         alpha.emplace_back( 2, unsigned( c ) );
+      }
+      for( const unsigned u : { 0x0000u, 0x0041u, 0x00e9u, 0x20acu, 0xd7ffu, 0xd800u, 0xd840u, 0xdbffu, 0xdc00u, 0xdfffu, 0xe000u, 0xffffu } ) {
+         alpha.emplace_back( 3, u );
+      }
+      std::mt19937 rng2( seed + 17 );
+      jstr( {} );
+      for( const auto& a : alpha ) {
+         jstr( { a } );
+         for( const auto& b2 : alpha ) {
+            jstr( { a, b2 } );
+            for( const auto& c : alpha ) {
+               if( thorough || ( rng2() % 8 ) == 0 ) {
+                  jstr( { a, b2, c } );
+               }
+            }
+         }
+      }
+      // multi-byte literals pass through unchanged
+      jstr( { { 1, 0xc3 }, { 1, 0xa9 }, { 3, 0xd834 }, { 3, 0xdd1e }, { 1, 0xf0 }, { 1, 0x9d }, { 1, 0x84 }, { 1, 0x9e }, { 2, 'n' } } );
    }
    // unescape_u / unescape_x / unhex_string
    const char* hex = "0123456789abcdefABCDEF";
